@@ -13,6 +13,16 @@ from typing import Any, Dict, List
 from . import core, tlc
 from .surface import print_doc, enc
 
+# vacuity guard (pv/census.py): what the judged models must have contained, per property
+REQUIRED = {
+    'C03': ['enum', 'enum.schema', 'col.type.qualified', 'col.type.suffix', 'table.schema', 'table.same_name_two_schemas', 'col.pk',
+            'table.composite_pk_by_flags', 'col.unique', 'col.notnull', 'col.autoinc', 'col.default.int', 'col.default.float',
+            'col.default.bool', 'col.default.str', 'col.default.expr', 'col.default.null', 'idx', 'idx.pk', 'idx.pk_between_others',
+            'idx.unique', 'idx.type', 'idx.name', 'idx.expr', 'idx.composite', 'table.note', 'col.note', 'note.multiline'],
+    'C04': ['ref.>', 'ref.<', 'ref.-', 'ref.<>', 'ref.name', 'ref.name.braces', 'ref.actions', 'ref.composite', 'col.inline_ref.>',
+            'col.inline_ref.<', 'col.inline_ref.-', 'col.inline_ref.<>', 'col.two_inline_refs', 'table.schema', 'ref.comment'],
+    'C18': ['col.inline_ref.>', 'col.inline_ref.<', 'col.inline_ref.-', 'ref.>', 'ref.<', 'enum', 'idx', 'table.note', 'col.note'],
+}
 CLAUSES = ['binding', 'readable', 'c03', 'c04', 'c18', 'c14', 'det']
 
 _CHILD = r'''
@@ -114,9 +124,16 @@ def run_items(items: List[Dict[str, Any]], rep: core.Report, label: str):
 
 
 def judge(prop: str, clauses: List[str], rep: core.Report, res, items, nontrivial):
+    from . import census as cs
     known = {k['id'] for k in core.known_findings(prop)}
+    cen = getattr(rep, 'census', None) or cs.Census()
+    rep.census = cen
+    seen_docs = set()
     for tid, (v, r) in res.items():
         it = items[tid]
+        if v['binding'] != 'out-of-domain' and it.get('doc') is not None and id(it['doc']) not in seen_docs:
+            seen_docs.add(id(it['doc']))
+            cen.add(cs.doc_tags(it['doc']))
         if v['binding'] == 'out-of-domain':
             rep.notes['out_of_domain'] = rep.notes.get('out_of_domain', 0) + 1
             continue
@@ -182,7 +199,7 @@ def standard_main(prop: str, clauses: List[str], technique: str, rule: str, nont
         ms = docs.gen_models(lo, lo + n - 1, False, True, rep)
         for seed, dm in ms:
             # morphed: built from another content, rendered, then edited in place into this one (pv/builder.py)
-            for route in ('parsed', 'built', 'morphed:' + ('names', 'types', 'settings', 'names+types+settings')[seed % 4]):
+            for route in ('parsed', 'built', 'morphed:' + ('names', 'types', 'settings', 'refs', 'names+types+settings+refs')[seed % 5]):
                 tid += 1
                 items[tid] = {'tid': tid, 'route': route, 'doc': dm['doc'], 'model': dm['model'], 'fseed': None, 'pinned': {},
                               'seed': seed}
@@ -194,6 +211,7 @@ def standard_main(prop: str, clauses: List[str], technique: str, rule: str, nont
         res = run_items(list(items.values()), rep, prop)
         judge(prop, clauses, rep, res, items, nontrivial)
         rep.notes['models'] = len(ms)
+        rep.census.require(prop, REQUIRED.get(prop, []), rep, 'models rendered to SQL')
         t0 = next(iter(items))
         rep.samples.append({'seed': items[t0]['seed'], 'route': items[t0]['route'], 'sql': (res[t0][1].get('_sql') or '')[:1500],
                             'verdict': res[t0][0]})
